@@ -335,7 +335,10 @@ func vNewPair(cfg vLCfg, conc *vConc) vCodecPair {
 		}
 		return NewStatic(ks, dts, opts...)
 	}
-	return vCodecPair{enc: mk(true), dec: mk(false)}
+	// the two sides are handed the keys in different orders; which side gets the sorted
+	// order alternates with the concretisation
+	encRev := conc.stream
+	return vCodecPair{enc: mk(encRev), dec: mk(!encRev)}
 }
 
 type vLStats struct {
